@@ -31,7 +31,7 @@ class AutoWorld(ReqWorld):
     name = "W-auto"
 
     def __init__(self, controller: bool = False, pairs: bool = True, requests=("r0", "r1", "r3"), name: str = "",
-                 human: bool = True, prices: bool = False, cancel: int = 240, home_plug: bool = True):
+                 human: bool = True, prices: bool = False, cancel: int = 240, home_plug: bool = True, h0_energy=None):
         World.__init__(self)
         self.pairs = pairs
         self.name = name or (("W-auto+controller" if controller else "W-auto") + ("" if home_plug else "/no-home-plug"))
@@ -70,7 +70,8 @@ class AutoWorld(ReqWorld):
             if home_plug:
                 stations.append(hs)
             bases.append(hb)
-            vehicles.append(mk_vehicle(env, rn, "h0", S["N2"], "quiet", soc=0.4, schedule_id="early", home_base_id="hb"))
+            # h0_energy: a human-driven vehicle low enough for the ChargingFleetManager to LOOK at every step without sending it
+            vehicles.append(mk_vehicle(env, rn, "h0", S["N2"], "quiet", soc=0.4, energy=h0_energy, schedule_id="early", home_base_id="hb"))
         if prices:
             import immutables
 
